@@ -300,7 +300,10 @@ def rule_defer(ctx):
     ok3 = False
     if len(lk) == 1 and isinstance(lk[0].args[0], ast.Name) and isinstance(q.stmt(lk[0]), ast.Assign):
         pvn = lk[0].args[0].id
-        resn = norm(q.stmt(lk[0]).targets[0])
+        st_ = q.stmt(lk[0])
+        # the reply is either bound to a name first or consumed where it is awaited
+        resn = norm(st_.targets[0]) if (st_.value is lk[0] or (isinstance(st_.value, ast.Await) and st_.value.value is lk[0])) \
+            else 'await ' + norm(lk[0])
         pv = [s for s in g.own_nodes() if isinstance(s, ast.Assign) and norm(s.targets[0]) == pvn]
         if len(pv) == 1:
             gens = [x for x in ast.walk(pv[0].value) if isinstance(x, ast.GeneratorExp)]
